@@ -2,7 +2,7 @@
    command stream (hw/NpuExec.v) is the formal object; statements about its scaling step. *)
 From Coq Require Import ZArith List Bool Lia.
 From VV Require Import lib.PyInt lib.PyFloat gen.GenTables gen.GenScaling model.Scaling model.FpMath proofs.FpMathProofs
-  proofs.ScalingProofs proofs.NpuExecProofs hw.Npu hw.NpuExec.
+  proofs.ScalingProofs proofs.NpuExecProofs hw.Npu hw.NpuExec model.Rewrites proofs.RewritesProofs.
 Open Scope Z_scope.
 
 (* The TFL scaling mode of the executable hardware semantics IS the reference kernels' requantisation
@@ -171,6 +171,42 @@ Proof.
   replace (2 * 2 ^ (shift - 1)) with (2 ^ shift) by (rewrite <- Z.pow_succ_r by lia; f_equal; lia).
   reflexivity.
 Qed.
+
+(* ---- graph rewrites across operators the NPU does not run (model/Rewrites.v) ---- *)
+(* SPACE_TO_BATCH_ND, a VALID convolution of every phase, BATCH_TO_SPACE_ND: a correlation with dilation d - for every
+   block size, filter, signal and position *)
+Theorem space_to_batch_conv_batch_to_space_is_dilation :
+  forall d k w (x : Z -> Z) i, 0 < d ->
+    batch_to_space d (fun p => conv_valid k w (space_to_batch d x p)) i = taps k w x i d.
+Proof. exact s2b_conv_b2s_lemma. Qed.
+
+(* with pt zeros padded in front and ct results cropped in front, the chain is the dilated convolution with pt - ct
+   zeros in front of the input *)
+Theorem dilated_chain_equals_dilated_convolution :
+  forall d k w n pt ct x y, 0 < d -> chain d k w n pt ct x y = dilated_conv d k w n (pt - ct) x y.
+Proof. exact chain_is_dilated_lemma. Qed.
+
+(* when the rewrite fires (decision 1 = SAME, 2 = VALID) the zeros Vela's padding computation puts in front of the
+   dilated convolution are pt - ct on both axes, and the output extents are those of that padding mode; so by the
+   theorem above the operator it emits computes the chain it replaces *)
+Theorem dilated_rewrite_decision_sound :
+  forall ih iw oh ow kh kw bh bw pt pl ct cl m,
+    dilated_decision ih iw oh ow kh kw bh bw pt pl ct cl = m -> m <> 0 ->
+    (m = 1 \/ m = 2) /\
+    pt - ct = vela_lead_pad m ((kh - 1) * bh) /\ pl - cl = vela_lead_pad m ((kw - 1) * bw) /\
+    oh = (if m =? 1 then ih else ih - (kh - 1) * bh) /\ ow = (if m =? 1 then iw else iw - (kw - 1) * bw).
+Proof. exact dilated_decision_sound_lemma. Qed.
+
+(* the behaviour before the repair (SAME whatever the paddings) is refuted by a VALID chain *)
+Theorem dilated_rewrite_always_same_refuted :
+  exists d k w n x y, 0 < d /\
+    chain d k w n 0 0 x y <> dilated_conv d k w n (((Z.of_nat k - 1) * d) / 2) x y.
+Proof. exact always_same_refuted_lemma. Qed.
+
+Print Assumptions space_to_batch_conv_batch_to_space_is_dilation.
+Print Assumptions dilated_chain_equals_dilated_convolution.
+Print Assumptions dilated_rewrite_decision_sound.
+Print Assumptions dilated_rewrite_always_same_refuted.
 
 Print Assumptions scale_natural_is_round_half_up.
 Print Assumptions scale_tfl_is_reference.
